@@ -338,6 +338,11 @@ func c08R2(p *Prog, r *Report, id string) {
 		return true
 	})
 	if skip {
+		// a `continue` after the member was handled is fine: decide per iteration — from the loop body no path
+		// reaches the next iteration (or a successful return) without having emitted a case or a skip-comment
+		skip = !memberLoopEmitsEval(sf)
+	}
+	if skip {
 		r.Bad("builder.(*Enum).Build/no skipped member", p.PosStr(loop.Pos()), "continue/break in the member loop: a declared member could get no case")
 	} else {
 		r.OK("builder.(*Enum).Build/no skipped member", p.PosStr(loop.Pos()), "no continue/break in the member loop")
@@ -878,4 +883,41 @@ func detectMemberFilterSSA(p *Prog) string {
 		return "no member store found"
 	}
 	return why
+}
+
+// memberLoopEmitsEval: one iteration of Enum.Build's member loop (the loop that ranges over SortedMembers()), walked
+// from its body to the loop header, always passes the emission of jen.Case(…) or jen.Comment(…) — or ends in an error.
+func memberLoopEmitsEval(sf *ssa.Function) bool {
+	// the loop: the one whose body contains a jen.Case emission
+	var body, header *ssa.BasicBlock
+	allInstrs(sf, false, func(in ssa.Instruction) {
+		c, ok := in.(*ssa.Call)
+		if ok && ssaCalleeObj(c) != nil && objPkgPath(ssaCalleeObj(c)) == jenPath && ssaCalleeObj(c).Name() == "Case" {
+			if b, h := loopBodyOf(in); b != nil && body == nil {
+				body, header = b, h
+			}
+		}
+	})
+	if body == nil {
+		return false
+	}
+	emitted := func(st map[string]absVal) bool {
+		return st["@emit"].k == absBool && st["@emit"].b
+	}
+	sc := &absScenario{
+		entry:  body,
+		stopAt: func(b *ssa.BasicBlock) bool { return b == header },
+		onStop: func(st map[string]absVal) bool { return !emitted(st) },
+		marks: func(in ssa.Instruction) (string, bool) {
+			c, ok := in.(*ssa.Call)
+			if ok && ssaCalleeObj(c) != nil && objPkgPath(ssaCalleeObj(c)) == jenPath && (ssaCalleeObj(c).Name() == "Case" || ssaCalleeObj(c).Name() == "Comment") {
+				return "emit", true
+			}
+			return "", false
+		},
+	}
+	got := absReachState(sf, sc, func(ret *ssa.Return, eval func(ssa.Value) absVal, st map[string]absVal) bool {
+		return successGoal(ret, eval) && !emitted(st)
+	})
+	return got == nil
 }
